@@ -1,3 +1,4 @@
+import RavenModel.Model.Plan
 import RavenModel.Model.Interleave
 /-! # C08 — concurrent sessions never lose, duplicate or mix up messages -/
 namespace Raven.Props.C08
@@ -56,5 +57,24 @@ theorem cache_single_handle (ids : List Nat) : ((getAll ⟨[], 0⟩ ids).handles
 
 /-- non-vacuity: three sessions interleaved -/
 example : (([Ev.start 1, .start 2, .adv 1, .adv 2, .start 3, .adv 2, .adv 1, .adv 3, .adv 3, .adv 2, .adv 1, .adv 3] : List Ev).foldl step init).links.length = 3 := by decide
+
+/-! ## the statements behind the conditional flag write and COPY (plan regenerated from /repo on every run) -/
+
+/-- C08.11  `ApplyFlagChange` is the compare-and-swap loop the model's `casStore` step describes: **inside** the retry loop the new
+flag list is computed from the flags last read, written under the condition that they are still the stored ones, and re-read
+when they are not — a value computed once outside the loop would write a stale list over another session's change. -/
+theorem plan_flag_change_recomputes :
+    Raven.Plan.trace (b!"message.ApplyFlagChange") =
+      [(b!"loop {"), (b!"call message.CalculateNewFlags"), (b!"sql UPDATE message_mailbox"), (b!"sql SELECT message_mailbox"), (b!"}")] := by
+  decide
+
+/-- C08.12  COPY and UID COPY read the destination's UID counter, insert the links and write the counter back inside one
+transaction (a counter read before `BEGIN` can be stale by the time the links are written). -/
+theorem plan_copy_in_one_transaction :
+    [(b!"message.HandleCopy"), (b!"uid.handleUIDCopy")].all (fun op =>
+      let tx := Raven.Plan.inTx (Raven.Plan.trace op)
+      Raven.Plan.before (Raven.Plan.idx (b!"sql SELECT mailboxes") tx) (Raven.Plan.idx (b!"sql INSERT message_mailbox") tx) &&
+      Raven.Plan.before (Raven.Plan.idx (b!"sql INSERT message_mailbox") tx) (Raven.Plan.idx (b!"sql UPDATE mailboxes") tx)) = true := by
+  decide
 
 end Raven.Props.C08
